@@ -795,6 +795,18 @@ func c07Extra(c *Ctx) {
 		{Name: "Ts", In: "Req", Out: "Reply", Unary: h, Rule: getRule("/c07x/ts/{ts}")},
 		{Name: "Many", In: "Req", Out: "Reply", Unary: h, Rule: getRule("/c07x/many/{name}/{nested.s}")},
 		{Name: "Ws", In: "Req", Out: "Reply", ClientStream: true, ServerStream: true, Stream: ws, Rule: customRule("WEBSOCKET", "/c07x/ws/{name}", "*")},
+		{Name: "WsGreet", In: "Req", Out: "Reply", ClientStream: true, ServerStream: true, Rule: customRule("WEBSOCKET", "/c07x/wsg/{name}", "*"),
+			Stream: func(fx *Fixture, ms *MethodSpec, st grpc.ServerStream) error {
+				if err := st.SendMsg(fx.NewMsg("Reply")); err != nil { // greets before it receives
+					return err
+				}
+				m := fx.NewMsg("Req")
+				if err := st.RecvMsg(m); err != nil {
+					return err
+				}
+				wsFirst = m
+				return st.SendMsg(fx.NewMsg("Reply"))
+			}},
 		{Name: "Oa", In: "Req", Out: "Reply", Unary: h, Rule: getRule("/c07x/oa/{oa}")},
 		{Name: "OaB", In: "Req", Out: "Reply", Unary: h, Rule: postRule("/c07x/oab/{oa}", "*")},
 		{Name: "Up", In: "Req", Out: "Reply", ClientStream: true, Rule: postRule("/c07x/up/{name}", "file"),
@@ -953,6 +965,37 @@ func c07Extra(c *Ctx) {
 		if wsFirst != nil {
 			if g := field(wsFirst, "name"); g != "PATH" {
 				c.SpecFail("path-wins-ws", in, "name="+g, "PATH (or no message at all)", "C07/path-overridden/ws-name", "over WebSocket the first message the handler received does not carry the value captured from the path")
+			}
+		}
+	}
+	// WebSocket: a handler that sends before it receives
+	{
+		wsFirst = nil
+		url := "ws" + strings.TrimPrefix(fx.HTTPServer().URL, "http") + "/c07x/wsg/PATH"
+		ctx, cancel := context.WithTimeout(context.Background(), 3*time.Second)
+		conn, br, _, err := gws.Dial(ctx, url)
+		cancel()
+		in := "websocket /c07x/wsg/PATH: the handler greets first, then receives {\"name\":\"BODY\"}"
+		c.Eval("path-wins-ws", in, true)
+		c.Class("extra:ws-greet")
+		if err == nil {
+			conn.SetDeadline(time.Now().Add(2 * time.Second))
+			var rw io.ReadWriter = conn
+			if br != nil {
+				rw = struct {
+					io.Reader
+					io.Writer
+				}{br, conn}
+			}
+			wsutil.ReadServerData(rw)                                              //nolint
+			wsutil.WriteClientMessage(conn, gws.OpText, []byte(`{"name":"BODY"}`)) //nolint
+			wsutil.ReadServerData(rw)                                              //nolint
+			conn.Close()
+			time.Sleep(5 * time.Millisecond)
+			if wsFirst == nil {
+				c.SpecFail("path-wins-ws", in, "handler received nothing", "a first message", "C07/ws/no-message", "the websocket handler did not receive the first message")
+			} else if g := field(wsFirst, "name"); g != "PATH" {
+				c.SpecFail("path-wins-ws", in, "name="+g, "PATH", "C07/path-overridden/ws-name", "over WebSocket the first message of a handler that had already sent does not carry the value captured from the path")
 			}
 		}
 	}
